@@ -295,7 +295,7 @@ func (t *Tree) MsgSigned(sender string, k *Keys) sdk.Msg {
 	}
 	switch t.Leaf {
 	case "stk:SCreateValidator":
-		m, _ := stakingtypes.NewMsgCreateValidator(sdk.ValAddress(k.accAddr(user1ID)).String(), k.Pool[poolSize-1].ConsPriv.PubKey(), coin,
+		m, _ := stakingtypes.NewMsgCreateValidator(sdk.ValAddress(sdk.MustAccAddressFromBech32(sender)).String(), k.Pool[poolSize-1].ConsPriv.PubKey(), coin,
 			stakingtypes.NewDescription("x", "", "", "", ""), stakingtypes.NewCommissionRates(math.LegacyNewDecWithPrec(1, 1), math.LegacyNewDecWithPrec(5, 1), math.LegacyNewDecWithPrec(1, 1)), math.OneInt())
 		return m
 	case "stk:SDelegate":
